@@ -4,7 +4,7 @@
 D=$1; WT=/tmp/wt/verify
 export GOFLAGS=-mod=mod GOPROXY=off GOSUMDB=off
 git -C $WT checkout -q -- . ; git -C $WT clean -fdq
-declare -A PK=( [parse]=pkg/parse [syslutil]=pkg/syslutil [loader]=pkg/loader [sequencediagram]=pkg/sequencediagram [integrationdiagram]=pkg/integrationdiagram [parse_test]=pkg/parse [loader_test]=pkg/loader [syslutil_test]=pkg/syslutil [main]=cmd/sysl [exporter]=pkg/exporter [pbutil]=pkg/pbutil [cmdutils]=pkg/cmdutils [datamodeldiagram]=pkg/datamodeldiagram [database]=pkg/database [importer]=pkg/importer [relmod]=pkg/arrai/relmod [parser]=pkg/grammar [mermaid]=pkg/mermaid [pbutil_test]=pkg/pbutil [exporter_test]=pkg/exporter [cmdutils_test]=pkg/cmdutils [importer_test]=pkg/importer )
+declare -A PK=( [parse]=pkg/parse [syslutil]=pkg/syslutil [loader]=pkg/loader [sequencediagram]=pkg/sequencediagram [integrationdiagram]=pkg/integrationdiagram [parse_test]=pkg/parse [loader_test]=pkg/loader [syslutil_test]=pkg/syslutil [main]=cmd/sysl [exporter]=pkg/exporter [pbutil]=pkg/pbutil [cmdutils]=pkg/cmdutils [datamodeldiagram]=pkg/datamodeldiagram [database]=pkg/database [importer]=pkg/importer [relmod]=pkg/arrai/relmod [parser]=pkg/grammar [mermaid]=pkg/mermaid [diagrams]=pkg/diagrams [pbutil_test]=pkg/pbutil [exporter_test]=pkg/exporter [cmdutils_test]=pkg/cmdutils [importer_test]=pkg/importer )
 pkgs=""
 place() { for t in $D/zz_*_test.go; do p=$(grep -m1 '^package ' $t | awk '{print $2}'); dir=${PK[$p]}; [ -z "$dir" ] && { echo "unknown package $p"; exit 3; }; cp $t $WT/$dir/; pkgs="$pkgs ./$dir"; done; }
 RACE=""; for N in $D/README.md $D/AUTHOR_NOTES.md; do [ -f $N ] && grep -qi "go test -race\|-race" $N && grep -qi "race detector" $N && RACE="-race"; done
